@@ -407,6 +407,17 @@ def c21_transport_effects(s: SCtx, I) -> None:
     cls = ctx.cls(HTTP, "HTTPChannel")
     ms = methods(cls)
     cfgs = {n: ctx.cfg(m) for n, m in ms.items()}
+    # class-level tables of the class's own functions ( _table = {key: _method, ...} ): a method that reads the table may call any of them
+    tables = {}
+    for st in cls.body:
+        if isinstance(st, (ast.Assign, ast.AnnAssign)) and isinstance(getattr(st, "value", None), (ast.Dict, ast.Tuple, ast.List)):
+            v = st.value
+            elems = list(v.values) if isinstance(v, ast.Dict) else list(v.elts)
+            fns = [e.id for e in elems if isinstance(e, ast.Name) and e.id in ms]
+            if fns:
+                for t in (st.targets if isinstance(st, ast.Assign) else [st.target]):
+                    if isinstance(t, ast.Name):
+                        tables[t.id] = fns
     direct, calls = {}, {}
     for n, g in cfgs.items():
         direct[n] = calls_named(g, *EFFECTS)
@@ -415,6 +426,9 @@ def c21_transport_effects(s: SCtx, I) -> None:
             for c in walk_local(g.node(node).ast):
                 if isinstance(c, ast.Call) and isinstance(c.func, ast.Attribute) and self_attr(c.func) and c.func.attr in ms:
                     calls[n].append((c.func.attr, node))
+                elif isinstance(c, ast.Attribute) and self_attr(c) and c.attr in tables:
+                    for fn in tables[c.attr]:
+                        calls[n].append((fn, node))
     W = {n for n in ms if direct[n]}
     changed = True
     while changed:
@@ -894,7 +908,7 @@ def c20_status_provenance(s: SCtx) -> None:
         vals = resolve_local(f, av)
         ctx.check(all(self_attr(v, "clientproto") for v in vals), "status/version-validated", ctx.construct(q, c),
                   "the response version is not the request's validated clientproto")
-        ctx.check(src(ah) == "self.responseHeaders", "status/headers-object", ctx.construct(q, c), "the headers written are not the Request's Headers object")
+        ctx.check(all(src(v) == "self.responseHeaders" for v in resolve_local(f, ah)), "status/headers-object", ctx.construct(q, c), "the headers written are not the Request's Headers object")
     # clientproto only from the channel's validated request line
     rr = ctx.func(HTTP, "Request.requestReceived")
     p3 = rr.args.args[3].arg if len(rr.args.args) >= 4 else None
